@@ -43,6 +43,15 @@ CHECKS = {
              "module and function level, plus random deep) are run with each read wrapped as (e k x); TLC accepts the "
              "run only if every read saw the value HyCore's environment chain prescribes and the final globals match.",
         note="defn of a name bound by an enclosing let is not generated (documented hoisting corner)."),
+    "C07": dict(
+        engine="scope", level="model_checking", design="5.1, 6/C07",
+        technique="TLC enumerates nestings of HyScope with the binding each assignment must reach (or syntax error); each "
+                  "nesting is rendered to Hy, compiled and run, and the values of all bindings at all levels compared",
+        text="Chains of up to 3 (thorough 4) nested functions / classes / let forms under the module; every level defines "
+             "any subset of {x, y}; the innermost level declares any subset nonlocal or global (or nothing) and assigns both. "
+             "Laws on the spec: global reaches the module, nonlocal passes over classes and picks the nearest let / function "
+             "/ module binding, exactly one binding changes.",
+        note="Unspecified: nonlocal at module level, declaring a name bound by the declaring let itself."),
     "C09": dict(
         engine="core", level="model_checking", design="5.1, 6/C09",
         technique="fault enumeration at every effect call of try/with programs, trace-validated and explored by TLC "
